@@ -46,6 +46,7 @@ package writer
 //@   requires s != nil
 //@   modifies writer.stack.*
 //@   ensures len(s.stack) == 0
+//@   ensures[C17] cap(s.stack) == old(cap(s.stack)) && obj(s.stack) == old(obj(s.stack))
 
 //@ func (*stack).len
 //@   safety[C12]
@@ -81,6 +82,8 @@ package writer
 //@   ensures len(s.stack) == old(len(s.stack)) + 1
 //@   ensures s.stack[len(s.stack)-1].start == start && s.stack[len(s.stack)-1].tableStart == end && s.stack[len(s.stack)-1].type_ == 1
 //@   ensures forall k :: 0 <= k && k < old(len(s.stack)) ==> s.stack[k].start == old(s.stack[k].start) && s.stack[k].tableStart == old(s.stack[k].tableStart) && s.stack[k].type_ == old(s.stack[k].type_)
+//@   noalloc[C17] old(len(s.stack)) < old(cap(s.stack))
+//@   ensures[C17] old(len(s.stack)) < old(cap(s.stack)) ==> cap(s.stack) == old(cap(s.stack))
 
 //@ func (*stack).pushList
 //@   safety[C12]
@@ -90,6 +93,8 @@ package writer
 //@   ensures len(s.stack) == old(len(s.stack)) + 1
 //@   ensures s.stack[len(s.stack)-1].start == start && s.stack[len(s.stack)-1].tableStart == tableStart && s.stack[len(s.stack)-1].type_ == 2
 //@   ensures forall k :: 0 <= k && k < old(len(s.stack)) ==> s.stack[k].start == old(s.stack[k].start) && s.stack[k].tableStart == old(s.stack[k].tableStart) && s.stack[k].type_ == old(s.stack[k].type_)
+//@   noalloc[C17] old(len(s.stack)) < old(cap(s.stack))
+//@   ensures[C17] old(len(s.stack)) < old(cap(s.stack)) ==> cap(s.stack) == old(cap(s.stack))
 
 //@ func (*stack).pushElement
 //@   safety[C12]
@@ -99,6 +104,8 @@ package writer
 //@   ensures len(s.stack) == old(len(s.stack)) + 1
 //@   ensures s.stack[len(s.stack)-1].start == start && s.stack[len(s.stack)-1].tableStart == 0 && s.stack[len(s.stack)-1].type_ == 3
 //@   ensures forall k :: 0 <= k && k < old(len(s.stack)) ==> s.stack[k].start == old(s.stack[k].start) && s.stack[k].tableStart == old(s.stack[k].tableStart) && s.stack[k].type_ == old(s.stack[k].type_)
+//@   noalloc[C17] old(len(s.stack)) < old(cap(s.stack))
+//@   ensures[C17] old(len(s.stack)) < old(cap(s.stack)) ==> cap(s.stack) == old(cap(s.stack))
 
 //@ func (*stack).pushMessage
 //@   safety[C12]
@@ -108,6 +115,8 @@ package writer
 //@   ensures len(s.stack) == old(len(s.stack)) + 1
 //@   ensures s.stack[len(s.stack)-1].start == start && s.stack[len(s.stack)-1].tableStart == tableStart && s.stack[len(s.stack)-1].type_ == 4
 //@   ensures forall k :: 0 <= k && k < old(len(s.stack)) ==> s.stack[k].start == old(s.stack[k].start) && s.stack[k].tableStart == old(s.stack[k].tableStart) && s.stack[k].type_ == old(s.stack[k].type_)
+//@   noalloc[C17] old(len(s.stack)) < old(cap(s.stack))
+//@   ensures[C17] old(len(s.stack)) < old(cap(s.stack)) ==> cap(s.stack) == old(cap(s.stack))
 
 //@ func (*stack).pushField
 //@   safety[C12]
@@ -117,6 +126,8 @@ package writer
 //@   ensures len(s.stack) == old(len(s.stack)) + 1
 //@   ensures s.stack[len(s.stack)-1].start == start && s.stack[len(s.stack)-1].tableStart == tag && s.stack[len(s.stack)-1].type_ == 5
 //@   ensures forall k :: 0 <= k && k < old(len(s.stack)) ==> s.stack[k].start == old(s.stack[k].start) && s.stack[k].tableStart == old(s.stack[k].tableStart) && s.stack[k].type_ == old(s.stack[k].type_)
+//@   noalloc[C17] old(len(s.stack)) < old(cap(s.stack))
+//@   ensures[C17] old(len(s.stack)) < old(cap(s.stack)) ==> cap(s.stack) == old(cap(s.stack))
 
 //@ func (stackEntry).end
 //@   safety[C12]
@@ -133,6 +144,7 @@ package writer
 //@   requires s != nil
 //@   modifies writer.listStack.*
 //@   ensures len(s.stack) == 0
+//@   ensures[C17] cap(s.stack) == old(cap(s.stack)) && obj(s.stack) == old(obj(s.stack))
 
 //@ func (*listStack).offset
 //@   safety[C12]
@@ -153,6 +165,8 @@ package writer
 //@   ensures len(s.stack) == old(len(s.stack)) + 1
 //@   ensures s.stack[len(s.stack)-1].Offset == elem.Offset
 //@   ensures forall k :: 0 <= k && k < old(len(s.stack)) ==> s.stack[k].Offset == old(s.stack[k].Offset)
+//@   noalloc[C17] old(len(s.stack)) < old(cap(s.stack))
+//@   ensures[C17] old(len(s.stack)) < old(cap(s.stack)) ==> cap(s.stack) == old(cap(s.stack))
 
 //@ func (*listStack).pop
 //@   safety[C12]
@@ -167,6 +181,7 @@ package writer
 //@   requires s != nil
 //@   modifies writer.messageStack.*
 //@   ensures len(s.stack) == 0
+//@   ensures[C17] cap(s.stack) == old(cap(s.stack)) && obj(s.stack) == old(obj(s.stack))
 
 //@ func (*messageStack).offset
 //@   safety[C12]
@@ -208,6 +223,7 @@ package writer
 //@   modifies @STATE
 //@   ensures s.buf == nil && len(s.stack.stack) == 0 && len(s.elements.stack) == 0 && len(s.fields.stack) == 0
 //@   ensures s.releaseState == old(s.releaseState) && s.releaseWriter == old(s.releaseWriter)
+//@   ensures[C17] cap(s.stack.stack) == old(cap(s.stack.stack)) && cap(s.elements.stack) == old(cap(s.elements.stack)) && cap(s.fields.stack) == old(cap(s.fields.stack))
 
 //@ func (*writerState).init
 //@   safety[C12,C18]
@@ -215,6 +231,7 @@ package writer
 //@   modifies @STATE
 //@   ensures s.buf == b && len(s.stack.stack) == 0 && len(s.elements.stack) == 0 && len(s.fields.stack) == 0
 //@   ensures s.releaseState == old(s.releaseState) && s.releaseWriter == old(s.releaseWriter)
+//@   ensures[C17] cap(s.stack.stack) == old(cap(s.stack.stack)) && cap(s.elements.stack) == old(cap(s.elements.stack)) && cap(s.fields.stack) == old(cap(s.fields.stack))
 
 // ---- pools (assumed: New returns some non-nil object; Put takes it back)
 
@@ -234,6 +251,7 @@ package writer
 //@   retains s._fields
 //@   modifies @STATE
 //@   modifies pools.*
+//@   ensures[C17] cap(s.stack.stack) == old(cap(s.stack.stack)) && cap(s.elements.stack) == old(cap(s.elements.stack)) && cap(s.fields.stack) == old(cap(s.fields.stack))
 
 //@ func (*writer).freeState
 //@   safety[C12]
